@@ -187,17 +187,27 @@ def check_entry(ctx, name, db, key):
         ctx.violation('db.entry', f'{name} entry {key} is not well formed: {err_name(e)}', input={'db': name, 'key': key})
 
 
-def check_lookup(ctx, name, db, tt):
-    from cirbo.circuits_db.normalization import NormalizationInfo
-    from cirbo.circuits_db.db import _truth_table_to_label
-    raw = [[ch == '1' for ch in r] for r in tt]
+def norm_key(tt):
+    """the database key of a table, computed here (not by the code): complement rows that start with 1, sort,
+    drop duplicates"""
+    rows = [r if r[0] == '0' else ''.join('1' if ch == '0' else '0' for ch in r) for r in tt]
+    return '_'.join(sorted(set(rows)))
+
+
+def check_lookup(ctx, name, db, tt, container='list'):
+    # rows as lists, tuples or a mixture: RawTruthTable is Sequence[Sequence[bool]]
+    mk = {'list': list, 'tuple': tuple}
+    raw = [(mk[container] if container in mk else (tuple if i % 2 == 0 else list))(ch == '1' for ch in r) for i, r in enumerate(tt)]
+    if container == 'tuple':
+        raw = tuple(raw)
+    ctx.count('lookup_rows:' + container)
     try:
         c = db.get_by_raw_truth_table(raw)
     except Exception as e:  # noqa: BLE001
         ctx.violation('db.lookup_raises', f'{name}: lookup of {tt} raised {err_name(e)}', input={'db': name, 'tt': tt})
         return None
     if c is None:
-        lab = _truth_table_to_label(NormalizationInfo(raw).truth_table)
+        lab = norm_key(tt)
         if lab in db._dict:
             ctx.violation('db.lookup_none', f'{name}: lookup of {tt} returned nothing although {lab} is stored', input={'db': name, 'tt': tt})
         ctx.count('lookup:none')
@@ -241,7 +251,7 @@ def search(ctx):
                 tables = sample_tables()
             for tt in tables:
                 ctx.case(json.dumps(['lookup', name, tt]))
-                check_lookup(ctx, name, db, tt)
+                check_lookup(ctx, name, db, tt, rng.choice(['list', 'list', 'tuple', 'mixed']))
     # (3) don't-cares
     from cirbo.core.logic import DontCare
     for name, db in dbs.items():
